@@ -40,10 +40,122 @@ _OPERATOR_FUNCS = {"add": ast.Add, "sub": ast.Sub, "mul": ast.Mult, "truediv": a
                    "lt": ast.Lt, "le": ast.LtE, "gt": ast.Gt, "ge": ast.GtE, "eq": ast.Eq, "ne": ast.NotEq}
 
 
-def _as_lambda(repo: Repo, m, v: ast.AST):
-    """a table value as a two-parameter lambda: a lambda, operator.<fn>, or a module-level function that just returns an expression"""
+def _sans_doc(body):
+    return [st for st in body if not (isinstance(st, ast.Expr) and isinstance(st.value, ast.Constant))]
+
+
+def _substitute(expr: ast.AST, mapping: dict) -> ast.AST:
+    """a copy of the expression with the (free) names of `mapping` replaced by copies of the mapped expressions; the parameters of a
+    lambda inside the expression shadow the mapping"""
+    import copy
+
+    class Sub(ast.NodeTransformer):
+        def __init__(self, mp):
+            self.mp = mp
+
+        def visit_Name(self, n):
+            return copy.deepcopy(self.mp[n.id]) if isinstance(n.ctx, ast.Load) and n.id in self.mp else n
+
+        def visit_Lambda(self, n):
+            own = {a.arg for a in n.args.args}
+            inner = {k: v_ for k, v_ in self.mp.items() if k not in own}
+            n.body = Sub(inner).visit(n.body)
+            return n
+
+    return Sub(dict(mapping)).visit(copy.deepcopy(expr))
+
+
+def _module_function(repo: Repo, m, name: str):
+    res = repo.lookup(m.name, name)
+    if res and res[0] == "func":
+        return repo.funcs.get(f"{repo.mods[res[2]].short}::{name}") if len(res) > 2 and res[2] in repo.mods else repo.func_opt(f"{m.short}::{name}")
+    return None
+
+
+def _def_as_lambda(fn: ast.FunctionDef):
+    """`def f(p, q): return <expr>` (docstring allowed, no defaults / *args) as `lambda p, q: <expr>`"""
+    a = fn.args
+    if a.vararg or a.kwarg or a.kwonlyargs or a.defaults or a.posonlyargs:
+        return None
+    body = _sans_doc(fn.body)
+    if len(body) == 1 and isinstance(body[0], ast.Return) and body[0].value is not None:
+        return ast.copy_location(ast.Lambda(args=a, body=body[0].value), fn)
+    return None
+
+
+def _factory_result(repo: Repo, m, call: ast.Call, depth: int):
+    """FACTORY(args) where FACTORY is a module-level function that defines a nested function / lambda and returns it: that function with
+    the factory's parameters bound to the argument EXPRESSIONS (nothing of the repository is executed: the closure is written out)"""
+    if not isinstance(call.func, ast.Name) or depth > 6:
+        return None
+    fi = _module_function(repo, m, call.func.id)
+    if fi is None:
+        return None
+    a = fi.node.args
+    if a.vararg or a.kwarg or a.kwonlyargs or a.posonlyargs:
+        return None
+    params = [x.arg for x in a.args]
+    bind = dict(zip(params, call.args))
+    if len(call.args) > len(params) or any(k.arg is None or k.arg not in params or k.arg in bind for k in call.keywords):
+        return None
+    bind.update({k.arg: k.value for k in call.keywords})
+    for pname, d in zip(params[len(params) - len(a.defaults):], a.defaults):
+        bind.setdefault(pname, d)
+    if set(bind) != set(params):
+        return None
+    body = _sans_doc(fi.node.body)
+    if not body or not isinstance(body[-1], ast.Return) or body[-1].value is None:
+        return None
+    local = {}
+    for st in body[:-1]:
+        if isinstance(st, ast.FunctionDef):
+            local[st.name] = _def_as_lambda(st)
+        elif isinstance(st, ast.Assign) and len(st.targets) == 1 and isinstance(st.targets[0], ast.Name) and isinstance(st.value, ast.Lambda):
+            local[st.targets[0].id] = st.value
+        else:
+            return None
+    ret = body[-1].value
+    inner = local.get(ret.id) if isinstance(ret, ast.Name) else ret if isinstance(ret, ast.Lambda) else None
+    if not isinstance(inner, ast.Lambda):
+        return None
+    own = {x.arg for x in inner.args.args}
+    lam = ast.Lambda(args=inner.args, body=_substitute(inner.body, {k: v_ for k, v_ in bind.items() if k not in own}))
+    lam.body = _reduce_calls(repo, m, lam.body, depth + 1)
+    return ast.fix_missing_locations(ast.copy_location(lam, call))
+
+
+def _reduce_calls(repo: Repo, m, expr: ast.AST, depth: int = 0) -> ast.AST:
+    """beta-reduction of the calls whose callee is a function VALUE that can be written out (`operator.lt(x, y)` -> `x < y`, a lambda,
+    a one-expression module function, the result of a factory): what remains are calls of library functions such as math.isclose"""
+    if depth > 6:
+        return expr
+
+    class Red(ast.NodeTransformer):
+        def visit_Call(self, n):
+            self.generic_visit(n)
+            if n.keywords or any(isinstance(x, ast.Starred) for x in n.args):
+                return n
+            f = _as_lambda(repo, m, n.func, depth + 1)
+            if f is None or len(f.args.args) != len(n.args):
+                return n
+            body = _substitute(f.body, dict(zip([x.arg for x in f.args.args], n.args)))
+            return _reduce_calls(repo, m, body, depth + 1)
+
+    return Red().visit(expr)
+
+
+def as_lambda(repo: Repo, m, v: ast.AST):
+    """public name of _as_lambda: a table value of module `m` as a lambda (None when it cannot be written out)"""
+    return _as_lambda(repo, m, v)
+
+
+def _as_lambda(repo: Repo, m, v: ast.AST, depth: int = 0):
+    """a table value as a two-parameter lambda: a lambda, operator.<fn>, a module-level function that just returns an expression, or
+    the closure returned by a module-level factory call (`_tolerant(operator.lt)`), written out with the factory's parameters bound"""
     if isinstance(v, ast.Lambda):
         return v
+    if isinstance(v, ast.Call):
+        return _factory_result(repo, m, v, depth)
     name = None
     if isinstance(v, ast.Attribute) and isinstance(v.value, ast.Name) and v.value.id == "operator":
         name = v.attr
